@@ -34,11 +34,13 @@ def recber_phase(ctx, res, pid, n_quick=120, n_thorough=1500, ops=None):
     impl = core.harness_run(ctx.harness, "recber", ops)
     # the whole charging model, with the BER size guard plugged in (Driver/Main.lean: berGuard), on the same operations
     from .props import strip_annot
-    model = core.driver_run(["chf " + op.split(" ", 1)[1] for op in ops])
+    model = core.driver_run(["chf end" if op.split(" ")[1:2] == ["createx"] else "chf " + op.split(" ", 1)[1] for op in ops])
     s0 = 0
     for i, (op, im, mo) in enumerate(zip(ops, impl, model)):
         if op.split(" ")[1:2] == ["reset"]:
             s0 = i
+        if op.split(" ")[1:2] == ["createx"]:
+            continue        # judged below against the OpenCDR model; the generator puts them after the last history
         a, b = im.split(" rb=")[0], strip_annot(mo)
         if a != b:
             res.disagreements += 1
@@ -93,6 +95,42 @@ def recber_phase(ctx, res, pid, n_quick=120, n_thorough=1500, ops=None):
             res.violation("oracle", "%s: a record payload is not one complete well-formed BER element" % pid,
                           replay + ["# query: " + q[:600], "# impl:  " + hx[:600]])
     res.extra["recber_records_compared"] = len(qs)
+    # --- OpenCDR: every member it reads from the create request (model: RecordBer.openAccepts / openEnv)
+    oq, oi = [], []
+    for i, (op, im) in enumerate(zip(ops, impl)):
+        t = op.split(" ")
+        if t[1:2] != ["createx"] or len(t) != 12:
+            continue
+        d = dict(x.split("=", 1) for x in im.split(" ") if "=" in x)
+        new = d.get("new", "")
+        env = new.split("/") if new else []
+        nfid, ot = (env[0], env[1]) if len(env) == 4 else ("-", "-")
+        q = "recopen %s %s %s" % (nfid, ot, " ".join(t[4:12]))
+        if "rec" in d and len(env) == 4:
+            q += " " + d["rec"]
+        oq.append(q)
+        oi.append((i, d, env))
+    oo = core.driver_run(oq) if oq else []
+    for q, mo, (i, d, env) in zip(oq, oo, oi):
+        res.evaluations += 1
+        res.traces_validated += 1
+        t = ops[i].split(" ")
+        res.dist["recopen:st=%s" % d.get("st")] += 1
+        res.dist["recopen:plmn=%s pdu=%s" % ("none" if t[8] == "~" else "given", "none" if t[11] == "~" else "incomplete" if t[11].startswith("x") else "given")] += 1
+        if d.get("st") == "201":
+            res.nontrivial.add("recopen#%d" % i)
+        m = mo.split(" ")
+        replay = ["recber reset"] + [o for o in ops[:i + 1] if o.split(" ")[1:2] == ["createx"]]
+        if m[0] != "st=" + d.get("st", "?"):
+            res.disagreements += 1
+            res.violation("correspondence", "recber: OpenCDR answered %s, the model (RecordBer.openAccepts) says %s" % (d.get("st"), m[0]),
+                          replay + ["# impl:  " + impl[i][:300], "# model: " + mo[:300]])
+        elif m[0] == "st=201" and len(env) == 4 and (len(m) < 4 or m[1] != "ok" or m[3] != env[3]):
+            res.disagreements += 1
+            res.violation("correspondence", "recber: the record OpenCDR built for a create differs from the model's (RecordBer.openEnv / recordBytes): "
+                          "consumer identification, PLMN id, PDU session or registration information",
+                          replay + ["# impl:  " + env[3][:600], "# model: " + " ".join(m[1:4])[:600]])
+    res.extra["recber_opencdr_requests_compared"] = len(oq)
 
 
 def cdrsize_records(ctx, res, pid, ops, obs, start_of):
